@@ -48,6 +48,19 @@ pub struct SolverCache<D: DependencyProvider> {
     hint_dependencies_available: RefCell<BitVec>,
 }
 
+/// Removes the in-flight marker of a candidates request when the future that performs the
+/// request is dropped before it completed.
+struct InFlightGuard<'a> {
+    in_flight: &'a RefCell<HashMap<NameId, Rc<Event>>>,
+    package_name: NameId,
+}
+
+impl Drop for InFlightGuard<'_> {
+    fn drop(&mut self) {
+        self.in_flight.borrow_mut().remove(&self.package_name);
+    }
+}
+
 impl<D: DependencyProvider> SolverCache<D> {
     /// Constructs a new instance from a provider.
     pub fn new(provider: D) -> Self {
@@ -113,6 +126,15 @@ impl<D: DependencyProvider> SolverCache<D> {
                             .borrow_mut()
                             .insert(package_name, Rc::new(Event::new()));
 
+                        // If this future is dropped before the provider answered (the solve
+                        // was cancelled while the request was in flight) the notifier must
+                        // not stay behind: a later request for the same package would wait
+                        // for it forever.
+                        let in_flight_guard = InFlightGuard {
+                            in_flight: &self.package_name_to_candidates_in_flight,
+                            package_name,
+                        };
+
                         // Otherwise we have to get them from the DependencyProvider
                         let candidates = self
                             .provider
@@ -147,6 +169,7 @@ impl<D: DependencyProvider> SolverCache<D> {
 
                         // Remove the in-flight request now that we inserted the result and notify
                         // any waiters
+                        std::mem::forget(in_flight_guard);
                         let notifier = self
                             .package_name_to_candidates_in_flight
                             .borrow_mut()
